@@ -76,7 +76,7 @@ def sweep_space() -> List[tuple]:
 
 def channels_for(kind: str, r) -> List[str]:
     if kind == "generic":
-        return [f"ch{i}" for i in range(r.randint(1, 3))]
+        return [f"ch{i}" for i in range(r.choice([0, 1, 1, 2, 3]))]     # possibly nothing to subscribe at first
     if kind == "binance":
         pool = ["trade:BTCUSDT", "trade:ETHUSDT", "user:spot", "user:cross", "user:isolated:BTCUSDT", "book:BTCUSDT",
                 "kline:ETHUSDT", "klineM:ETHUSDT", "klineH:BTCUSDT"]
@@ -111,6 +111,8 @@ def build_scenario(r, kind: str, seq: List[str]) -> Dict[str, Any]:
         if a == "register":
             st["channel"] = extra_channel(kind, late)
             late += 1
+        if a in ("close", "reconnect_request") and r.random() < 0.25:
+            st["at_handshake"] = True      # the *next* connection finds the frame waiting right after the handshake
         if a == "listen_key_expired":
             st["pick"] = r.randrange(10)
             st["together"] = r.random() < 0.4     # every user-data stream of the connection expires in the same instant
@@ -186,6 +188,11 @@ class GenericAdapter(Adapter):
             src = Src(self.cli, ch)
             self.cli.set_channel_event_source(ch, src)
             d.subscribe(src, self.sink(ch))
+        if not sc["channels"]:
+            # the application knows its websocket producer before it registers any channel on it
+            from basana.core import event as _event
+            keep = _event.FifoQueueEventSource(producer=self.cli)
+            d.subscribe(keep, self.sink("-"))
         self.ws_clients = [self.cli]
 
     def register_late(self, chan: str):
@@ -416,6 +423,7 @@ class Run:
         self.sc = sc
         self.delivered: List[tuple] = []          # (t, chan, uid)
         self.expired_together = 0
+        self.handshake_faults = 0
         self.sent: List[Dict[str, Any]] = []       # {uid, chan, t, cid}
         self.client_errors: List[tuple] = []
         self.key_subscriptions: List[tuple] = []   # (t, cid, chan, key)  [binance]
@@ -479,6 +487,11 @@ class Run:
                             continue
                         self.sent.append({"uid": u, "chan": ch, "t": self.peer.now(), "cid": ws.cid})
                         ws.push_json(m)
+                    elif a in ("close", "reconnect_request") and st.get("at_handshake"):
+                        self.peer.at_handshake.append(a)
+                        self.handshake_faults += 1
+                        if ws:
+                            ws.server_close()
                     elif a == "close" and ws:
                         ws.server_close()
                     elif a == "drop" and ws:
@@ -569,6 +582,23 @@ class Run:
             if b - a < sc["backoff"] - 1e-6:
                 out.append(("backoff_not_respected", f"connection attempts at {a:.3f} and {b:.3f}, back-off {sc['backoff']}"))
                 break
+        # O5 bounded progress: while the producer runs, the end of a connection (or a failed attempt) is followed by
+        # another attempt within the back-off plus a margin
+        margin = sc["backoff"] + 3.0 + 2 * self.max_rest_delay
+        for i, t_att in enumerate(at):
+            cid = peer.attempt_conn[i] if i < len(peer.attempt_conn) else None
+            t_end = t_att if cid is None else peer.conns[cid].closed_at
+            if t_end is None or t_end + margin >= T - 1.0:
+                continue
+            if i + 1 >= len(at) or at[i + 1] > t_end + margin + 1e-9:
+                out.append(("no_reconnection_attempt",
+                            f"{'connection ' + str(cid) + ' ended' if cid is not None else 'a connection attempt failed'} at "
+                            f"{t_end:.3f} and no new attempt followed within {margin:.1f}s (attempts: "
+                            f"{[round(x, 3) for x in at][-6:]}; caller's session closed at {peer.session_closed_at})"))
+                break
+        if peer.session_closed_at is not None and peer.session_closed_at < T - 1.0:
+            out.append(("callers_session_closed", f"the session the caller supplied was closed at {peer.session_closed_at:.3f} "
+                                                  f"while the producer was running"))
         # O1 per-connection subscription obligations
         for c in peer.conns:
             end = c.closed_at if c.closed_at is not None else T
@@ -683,6 +713,7 @@ def evaluate(sc: Dict[str, Any], res: ShardResult) -> Run:
     res.count("messages_sent", len(run.sent))
     res.count("messages_delivered", len(run.delivered))
     res.count("listen_keys_expired_together", run.expired_together)
+    res.count("frames_waiting_at_handshake", run.handshake_faults)
     res.count("keep_alives", len(run.peer.keep_alives))
     res.count("listen_keys", len(run.peer.listen_keys))
     res.count("flagged_resubscriptions", len(run.flagged))
